@@ -879,6 +879,13 @@ func registerMisc(e *Engine) {
 		"internal/race.Read", "internal/race.Write", "internal/race.ReadRange", "internal/race.WriteRange"} {
 		e.on(n, nop)
 	}
+	// the CPU variant of the machine (cpuid assembly natively): an arbitrary one of the documented values
+	e.on("github.com/regclient/regclient/types/platform.cpuVariant", func(fr *Frame, a []Value) Value {
+		e.noteUse("model: the local CPU variant is an arbitrary value of {\"\", v1..v4} (environment)")
+		f := &Fin{Choices: []string{"", "v1", "v2", "v3", "v4"}}
+		f.Idx = fr.p.symInt("env_cpu_variant", 0, 4)
+		return Str{Fin: f}
+	})
 	e.on("runtime/debug.ReadBuildInfo", func(fr *Frame, a []Value) Value { return Tuple{(*Value)(nil), smt.False} })
 	e.on("os.Getenv", func(fr *Frame, a []Value) Value { return Str{} })
 	e.on("os.LookupEnv", func(fr *Frame, a []Value) Value { return Tuple{Str{}, smt.False} })
